@@ -1,2 +1,6 @@
 """Theorem list of Props/C01.lean (kept separate so that c14.py can reuse the C01 streams)."""
-THEOREMS: list[str] = []
+THEOREMS = [
+    "Ibl.settle_terminates", "Ibl.settle_keeps_clear", "Ibl.rotation_fits",
+    "Ibl.decode1_feasible", "Ibl.decode1_stateless", "Ibl.decode2_feasible",
+    "Ibl.packing_values_fit_dtype",
+]
